@@ -82,5 +82,61 @@ func TestVerifC16Keys(t *testing.T) {
 		}
 	}
 	rep.Distinct = len(cases)
+
+	// the order of the CLIENT's region cache (the tree a new client builds, with whatever comparator it hands it): filled with
+	// the names of the scope in a scrambled order, its enumeration must be the specification's sorted list
+	type nm struct{ Table, Start, ID []int }
+	sorted, err := c08readNDJSON[nm](in + "/c16_sorted.ndjson")
+	if err != nil {
+		t.Fatal(err)
+	}
+	flat := func(n nm) []byte {
+		o := append([]byte{}, b(n.Table)...)
+		o = append(o, ',')
+		o = append(o, b(n.Start)...)
+		o = append(o, ',')
+		return append(o, b(n.ID)...)
+	}
+	c := newClient("zk.invalid:2181", Logger(discardLogger))
+	perm := make([]int, len(sorted))
+	for i := range perm {
+		perm[i] = (i*7919 + 13) % len(sorted)
+	}
+	seen := map[string]bool{}
+	for _, i := range perm {
+		name := flat(sorted[i])
+		if seen[string(name)] {
+			continue
+		}
+		seen[string(name)] = true
+		c.regions.regions.Set(name, region.NewInfo(1, nil, b(sorted[i].Table), name, b(sorted[i].Start), nil))
+	}
+	enum, err := c.regions.regions.SeekFirst()
+	var got [][]byte
+	for err == nil {
+		var k []byte
+		k, _, err = enum.Next()
+		if err == nil {
+			got = append(got, k)
+		}
+	}
+	var want [][]byte
+	for _, n := range sorted {
+		if k := flat(n); len(want) == 0 || !bytes.Equal(want[len(want)-1], k) {
+			want = append(want, k)
+		}
+	}
+	rep.Scenarios++
+	if len(got) != len(want) {
+		rep.bad("client-cache-order", "the client's region cache holds %d of the %d names inserted (its comparator takes different names for equal)", len(got), len(want))
+	} else {
+		for i := range got {
+			if !bytes.Equal(got[i], want[i]) {
+				rep.bad("client-cache-order", "the client's region cache enumerates %q at position %d; the specification's order has %q there", got[i], i, want[i])
+				break
+			}
+		}
+	}
+	c.Close()
 	_ = fmt.Sprint
 }
